@@ -12,7 +12,19 @@ PROP = {
     "level_note": ("Trusted as C01. The point where a fault strikes inside the migration is reported by the harness as the number of items moved "
                    "(the model does not predict allocator internals, DESIGN.md 2.7); functor faults need extraCheckMode = nothing (O1)."),
     "modules": ["Momo.Props.C11"],
-    "theorems": [],
+    "theorems": [
+        "Momo.HT.C11_refused_growth_fallback",
+        "Momo.HT.C11_full_iff_all_buckets_full",
+        "Momo.HT.C11_add_every_fault_partial",
+        "Momo.HT.C11_migration_interrupted",
+        "Momo.HT.C11_migration_interrupted_core",
+        "Momo.HT.C11_remove_in_any_generation",
+        "Momo.HT.C11_migration_completes",
+        "Momo.HT.C11_later_insert_completes",
+        "Momo.HT.C11_reserve_every_fault_partial",
+        "Momo.HT.C11_history_partial",
+        "Momo.HT.C11_history_full_false",
+    ],
     "harnesses": [
         {"name": "c11_chain", "src": "c01_hash.cpp", "flags": ["-DVF_PART=0", "-DVF_FAULTS=1"]},
         {"name": "c11_old", "src": "c01_hash.cpp", "flags": ["-DVF_PART=1", "-DVF_FAULTS=1"]},
